@@ -1,1 +1,257 @@
-// harnesses for this module (included by the isomer_erbium_verif hook)
+// Kani harnesses for crates/erbium-core/src/dns/dnspkt.rs (C04, C05, C06, C14, C15).
+#[cfg(kani)]
+mod k {
+    use super::super::*;
+    include!(concat!(env!("ISOMER_ERBIUM_VERIF_DIR"), "/_common.rs"));
+
+    // ------------------------------------------------------------------ helpers
+    fn label<const N: usize>(b: [u8; N]) -> Label {
+        Label(b.to_vec())
+    }
+    fn any_label<const N: usize>() -> Label {
+        let b: [u8; N] = kani::any();
+        Label(b.to_vec())
+    }
+    fn root() -> Domain {
+        Domain(Vec::new())
+    }
+    fn rr_other<const N: usize>(ttl: u32) -> RR {
+        let d: [u8; N] = kani::any();
+        RR { domain: root(), class: CLASS_IN, rrtype: RR_A, ttl, rdata: RData::Other(d.to_vec()) }
+    }
+    fn pkt(answer: Vec<RR>, nameserver: Vec<RR>, additional: Vec<RR>) -> DNSPkt {
+        DNSPkt {
+            qid: kani::any(),
+            rd: kani::any(),
+            tc: false,
+            aa: kani::any(),
+            qr: true,
+            opcode: OPCODE_QUERY,
+            cd: kani::any(),
+            ad: kani::any(),
+            ra: kani::any(),
+            rcode: NOERROR,
+            bufsize: 512,
+            edns_ver: None,
+            edns_do: false,
+            question: Question { qdomain: root(), qclass: CLASS_IN, qtype: RR_A },
+            answer,
+            nameserver,
+            additional,
+            edns: None,
+        }
+    }
+
+    // ------------------------------------------------------------------ C05: EDNS option accessors
+    fn cookie_len<const N: usize>() {
+        let d: [u8; N] = kani::any();
+        let e = EdnsData(vec![EdnsOption { code: EDNS_COOKIE, data: d.to_vec() }]);
+        let r = e.get_cookie();
+        if let Some((client, server)) = r {
+            assert!(client.len() == 8, "client cookie is 8 octets");
+            assert!(N >= 8, "a cookie shorter than 8 octets is not a cookie");
+            if let Some(s) = server {
+                assert!(s.len() == N - 8, "server cookie is the remainder");
+            }
+        }
+        kani::cover!(true, "reached");
+        std::mem::forget(e);
+    }
+
+    /// VERIF: {"p":"C05","tier":"quick","fns":["dns::dnspkt::EdnsData::get_cookie","dns::dnspkt::EdnsData::get_opt"],"bounds":"COOKIE option payload lengths {0,1,7,8,9,16,40} selected symbolically, all payload bytes symbolic","oracle":"no panic / out-of-bounds slice; a result has an 8-octet client part","covers":1,"unwind":4}
+    #[kani::proof]
+    #[kani::unwind(4)]
+    fn c05_edns_cookie_any_length() {
+        match kani::any::<u8>() {
+            0 => cookie_len::<0>(),
+            1 => cookie_len::<1>(),
+            2 => cookie_len::<7>(),
+            3 => cookie_len::<8>(),
+            4 => cookie_len::<9>(),
+            5 => cookie_len::<16>(),
+            _ => cookie_len::<40>(),
+        }
+    }
+
+    fn ede_len<const N: usize>() {
+        // code octets symbolic; text octets concrete ASCII (String::from_utf8_lossy over symbolic bytes is
+        // out of reach for CBMC and irrelevant for the index arithmetic under test)
+        let mut d = [b'x'; N];
+        if N > 0 {
+            d[0] = kani::any();
+        }
+        if N > 1 {
+            d[1] = kani::any();
+        }
+        let e = EdnsData(vec![EdnsOption { code: EDNS_EDE, data: d.to_vec() }]);
+        let r = e.get_extended_dns_error();
+        if let Some((code, _txt)) = &r {
+            assert!(N >= 2, "an EDE option shorter than its 2-octet code has no code");
+            assert!(code.0 == u16::from_be_bytes([d[0], d[1 % N.max(1)]]), "info-code decoded big-endian");
+        }
+        kani::cover!(true, "reached");
+        std::mem::forget(r);
+        std::mem::forget(e);
+    }
+
+    /// VERIF: {"p":"C05","tier":"quick","fns":["dns::dnspkt::EdnsData::get_extended_dns_error","dns::dnspkt::EdnsData::get_opt"],"bounds":"EDE option payload lengths {0,1,2,3} selected symbolically; info-code octets symbolic, text concrete","oracle":"no panic / out-of-bounds index","covers":1,"unwind":6}
+    #[kani::proof]
+    #[kani::unwind(6)]
+    fn c05_edns_ede_any_length() {
+        match kani::any::<u8>() {
+            0 => ede_len::<0>(),
+            1 => ede_len::<1>(),
+            2 => ede_len::<2>(),
+            _ => ede_len::<3>(),
+        }
+    }
+
+    // ------------------------------------------------------------------ C06: expiry and TTL ageing
+    /// VERIF: {"p":"C06","tier":"quick","fns":["dns::dnspkt::DNSPkt::get_expiry"],"bounds":"1 answer + 1 authority + 1 additional record, the three TTLs symbolic over 0..2^32-1","oracle":"lifetime == min(TTL) over all three sections, in seconds","covers":3,"unwind":5}
+    #[kani::proof]
+    #[kani::unwind(5)]
+    fn c06_expiry_is_min_ttl_111() {
+        let (a, n, d): (u32, u32, u32) = (kani::any(), kani::any(), kani::any());
+        let p = pkt(vec![rr_other::<0>(a)], vec![rr_other::<0>(n)], vec![rr_other::<0>(d)]);
+        let e = p.get_expiry();
+        let m = a.min(n).min(d);
+        kani::cover!(m == a && a < n && a < d, "answer smallest");
+        kani::cover!(m == n && n < a && n < d, "authority smallest");
+        kani::cover!(m == d && d < a && d < n, "additional smallest");
+        assert!(e == std::time::Duration::from_secs(m as u64), "get_expiry == min TTL of all sections");
+        std::mem::forget(p);
+    }
+
+    /// VERIF: {"p":"C06","tier":"quick","fns":["dns::dnspkt::DNSPkt::get_expiry"],"bounds":"section shapes (2,0,0), (0,2,0), (0,0,2), (0,0,0) selected symbolically, TTLs symbolic","oracle":"lifetime == min TTL, zero for a reply without records (zero means: do not cache)","covers":2,"unwind":5}
+    #[kani::proof]
+    #[kani::unwind(5)]
+    fn c06_expiry_is_min_ttl_shapes() {
+        let (a, b): (u32, u32) = (kani::any(), kani::any());
+        let two = || vec![rr_other::<0>(a), rr_other::<0>(b)];
+        let s: u8 = kani::any();
+        let p = match s {
+            0 => pkt(two(), vec![], vec![]),
+            1 => pkt(vec![], two(), vec![]),
+            2 => pkt(vec![], vec![], two()),
+            _ => pkt(vec![], vec![], vec![]),
+        };
+        let e = p.get_expiry();
+        kani::cover!(s == 1 && a > b, "authority, second smaller");
+        kani::cover!(s > 2, "empty reply");
+        if s <= 2 {
+            assert!(e == std::time::Duration::from_secs(a.min(b) as u64), "get_expiry == min TTL");
+        } else {
+            assert!(e == std::time::Duration::from_secs(0), "empty reply has lifetime zero");
+        }
+        std::mem::forget(p);
+    }
+
+    /// VERIF: {"p":"C06","tier":"quick","fns":["dns::dnspkt::DNSPkt::clone_with_ttl_decrement","dns::dnspkt::DNSPkt::get_expiry"],"bounds":"1+1+1 records with symbolic TTLs (rdata of 1/0/0 symbolic bytes), decrement symbolic with the cache's precondition decrement <= get_expiry()","oracle":"every TTL' == TTL - decrement (never grows, never below zero, never wraps); header, question, rdata, section membership unchanged","covers":2,"unwind":6}
+    #[kani::proof]
+    #[kani::unwind(6)]
+    fn c06_ttl_decrement_exact() {
+        let (a, n, d): (u32, u32, u32) = (kani::any(), kani::any(), kani::any());
+        let p = pkt(vec![rr_other::<1>(a)], vec![rr_other::<0>(n)], vec![rr_other::<0>(d)]);
+        let dec: u32 = kani::any();
+        kani::assume(dec <= a.min(n).min(d)); // the cache's precondition: decrement <= get_expiry() (see dns_cache harnesses)
+        let q = p.clone_with_ttl_decrement(dec);
+        kani::cover!(dec > 0 && dec == a, "answer TTL reaches exactly zero");
+        kani::cover!(dec == 0, "no ageing");
+        assert!(q.answer.len() == 1 && q.nameserver.len() == 1 && q.additional.len() == 1, "no record moved, dropped or invented");
+        assert!(q.answer[0].ttl == a - dec && q.nameserver[0].ttl == n - dec && q.additional[0].ttl == d - dec, "TTL' == TTL - elapsed");
+        assert!(q.answer[0].ttl <= a && q.nameserver[0].ttl <= n && q.additional[0].ttl <= d, "TTLs never grow");
+        assert!(q.answer[0].rdata == p.answer[0].rdata && q.nameserver[0].rdata == p.nameserver[0].rdata && q.additional[0].rdata == p.additional[0].rdata, "rdata unchanged");
+        assert!(q.qid == p.qid && q.rcode == p.rcode && q.rd == p.rd && q.aa == p.aa && q.ra == p.ra && q.ad == p.ad && q.cd == p.cd && q.qr == p.qr, "header unchanged");
+        std::mem::forget(p);
+        std::mem::forget(q);
+    }
+
+    // ------------------------------------------------------------------ C15: suffix relation, ordering
+    fn lower(b: u8) -> u8 {
+        if b >= b'A' && b <= b'Z' { b + 32 } else { b }
+    }
+    fn label_eq_ci(a: &Label, b: &Label) -> bool {
+        if a.0.len() != b.0.len() {
+            return false;
+        }
+        let mut i = 0;
+        while i < a.0.len() {
+            if lower(a.0[i]) != lower(b.0[i]) {
+                return false;
+            }
+            i += 1;
+        }
+        true
+    }
+    // reference: whole-label, ASCII case-insensitive suffix relation (RFC 1035 2.3.3 / RFC 4343)
+    fn ref_ends_with(name: &Domain, suffix: &Domain) -> bool {
+        if suffix.0.len() > name.0.len() {
+            return false;
+        }
+        let off = name.0.len() - suffix.0.len();
+        let mut i = 0;
+        while i < suffix.0.len() {
+            if !label_eq_ci(&name.0[off + i], &suffix.0[i]) {
+                return false;
+            }
+            i += 1;
+        }
+        true
+    }
+
+    /// VERIF: {"p":"C15","tier":"quick","fns":["dns::dnspkt::Domain::ends_with"],"bounds":"query names of 3 labels (2,1,2 octets) against suffixes of 0,1,2,3 labels with the same label sizes, plus a 1-octet/2-octet size mismatch; all octets symbolic (any byte value, so every upper/lower case mix)","oracle":"ends_with == whole-label ASCII-case-insensitive suffix relation; the empty suffix matches everything","covers":3,"unwind":5}
+    #[kani::proof]
+    #[kani::unwind(5)]
+    fn c15_ends_with_is_case_insensitive_label_suffix() {
+        let name = Domain(vec![any_label::<2>(), any_label::<1>(), any_label::<2>()]);
+        let s: u8 = kani::any();
+        let suffix = match s {
+            0 => Domain(vec![]),
+            1 => Domain(vec![any_label::<2>()]),
+            2 => Domain(vec![any_label::<1>(), any_label::<2>()]),
+            3 => Domain(vec![any_label::<2>(), any_label::<1>(), any_label::<2>()]),
+            4 => Domain(vec![any_label::<1>()]), // size mismatch with the last label: never a suffix
+            _ => Domain(vec![any_label::<2>(), any_label::<2>(), any_label::<1>(), any_label::<2>()]), // longer than the name
+        };
+        let got = name.ends_with(&suffix);
+        let want = ref_ends_with(&name, &suffix);
+        kani::cover!(want && s == 2 && name.0[2].0[0] != suffix.0[1].0[0], "match that differs in case only");
+        kani::cover!(!want && s == 1, "non-match");
+        kani::cover!(s == 0 && want, "empty suffix matches");
+        assert!(got == want, "ends_with == case-insensitive whole-label suffix");
+        std::mem::forget(name);
+        std::mem::forget(suffix);
+    }
+
+    /// VERIF: {"p":"C15","tier":"quick","fns":["dns::dnspkt::compare_longest_suffix"],"bounds":"suffix pairs with label counts 0..=2 (1-octet labels, symbolic octets)","oracle":"more labels sorts first (Less); antisymmetric; equal label count and equal labels <=> Equal","covers":2,"unwind":5}
+    #[kani::proof]
+    #[kani::unwind(5)]
+    fn c15_compare_longest_suffix_order() {
+        fn dom(n: u8) -> Domain {
+            match n {
+                0 => Domain(vec![]),
+                1 => Domain(vec![any_label::<1>()]),
+                _ => Domain(vec![any_label::<1>(), any_label::<1>()]),
+            }
+        }
+        let (la, lb): (u8, u8) = (kani::any(), kani::any());
+        kani::assume(la <= 2 && lb <= 2);
+        let a = dom(la);
+        let b = dom(lb);
+        use std::cmp::Ordering::*;
+        let ab = compare_longest_suffix(&a, &b);
+        let ba = compare_longest_suffix(&b, &a);
+        kani::cover!(la > lb, "first longer");
+        kani::cover!(la == lb && ab == Equal && la == 2, "equal");
+        if la > lb {
+            assert!(ab == Less && ba == Greater, "longer suffix sorts first");
+        } else if la < lb {
+            assert!(ab == Greater && ba == Less, "shorter suffix sorts later");
+        } else {
+            assert!(ab == ba.reverse(), "antisymmetric");
+            assert!((ab == Equal) == (a == b), "Equal <=> identical");
+        }
+        std::mem::forget(a);
+        std::mem::forget(b);
+    }
+}
